@@ -84,6 +84,16 @@ def gen_case(seed, idx):
     }
 
 
+def describe_loop_error(ctx):
+    """what the loop's exception handler was told: exception class, text, and the callback it escaped from"""
+    ex = ctx.get("exception")
+    what = ("%s: %s" % (type(ex).__name__, ex)) if ex is not None else str(ctx.get("message"))
+    h = ctx.get("handle")
+    if h is not None:
+        what += " [in %s]" % getattr(getattr(h, "_callback", None), "__qualname__", getattr(h, "_callback", None))
+    return what[:240]
+
+
 def rec_key(r):
     """identity of a record without TTL, creation time and cache-flush bit"""
     tok = C.rec_line(r, created=0).split()
@@ -205,6 +215,17 @@ def simulate(case, close_at, want_blocks=True):
             def once():
                 sched = loop_._scheduled
                 live = [h_ for h_ in sched if not h_._cancelled]
+                if case["tie_first"] == "notify" and loop_._ready:
+                    # the same for the last step of a close: `_shutdown_threads()` hands `async_notify_all` to the loop with
+                    # `call_soon_threadsafe`; it runs one iteration after the close returned.  If a timer becomes due while
+                    # that iteration is being prepared (<= 1 ms ahead) it is appended *behind* the notification -- e.g. the timeout
+                    # handle of a task waiting in `Zeroconf.async_wait` (probing), whose future the notification has just resolved
+                    if any(getattr(getattr(r_, "_callback", None), "__self__", None) is za and getattr(r_._callback, "__name__", "") == "async_notify_all"
+                           for r_ in loop_._ready):
+                        for h_ in live:
+                            if 0 < round(h_._when * 1000) - loop_.ms <= 1:
+                                loop_.ms = round(h_._when * 1000)
+                                break
                 if case["tie_first"] == "close" and loop_._ready:
                     # real time passes while callbacks run: a timer that is due within the next millisecond may become due
                     # while something is still queued -- it is then appended *behind* what is queued (here: the close's step)
@@ -212,7 +233,7 @@ def simulate(case, close_at, want_blocks=True):
                         if is_a_cleanup(h_) and 0 < round(h_._when * 1000) - loop_.ms <= 1 and any(
                                 "async_close" in repr(getattr(r_, "_callback", "")) or "async_close" in repr(getattr(r_, "_args", "")) for r_ in loop_._ready):
                             loop_.ms = round(h_._when * 1000)
-                if len(live) > 1:
+                if len(live) > 1 and case["tie_first"] != "notify":
                     w0 = min(round(h_._when * 1000) for h_ in live)
                     same = [h_ for h_ in live if round(h_._when * 1000) == w0]
                     if len(same) > 1:
@@ -232,7 +253,7 @@ def simulate(case, close_at, want_blocks=True):
                     pass
 
             za.async_add_listener(Raw(), None)
-        sim.loop.set_exception_handler(lambda l, ctx: obs["errors"].append([sim.now(), str(ctx.get("exception") or ctx.get("message"))[:200]]))
+        sim.loop.set_exception_handler(lambda l, ctx: obs["errors"].append([sim.now(), describe_loop_error(ctx)]))
 
         def on_send(t, srch, data, addr):
             if srch is a:
@@ -506,6 +527,31 @@ def gen_aligned_case(seed, idx):
             "listen_socket": rng.random() < 0.6, "addr_mode": "same", "server_mode": "shared", "extra_closes": [], "cancel_first_at": None}
 
 
+def gen_waiter_case(seed, idx):
+    """a close whose last step -- `_shutdown_threads()` -> `notify_all()` -> `call_soon_threadsafe(async_notify_all)`: the waiters are
+    resolved one loop iteration after the close returned -- falls 1 ms before the deadline of a wait that is in progress: the
+    175 ms waits between the probes of a registration (`Zeroconf.async_wait` -> `wait_for_future_set_or_timeout`).  With real
+    time passing while callbacks run, the wait's timeout handle becomes due in the very iteration in which the notification
+    resolves its future, and fires on a finished future before the resumed task can cancel it."""
+    rng = C.rng_for(seed, "c17-waiter", idx)
+    k = rng.choice([1, 2, 3])                 # which of the three waits of the probing service
+    registered_before = rng.random() < 0.5    # another service already registered: the close then takes 250 ms (three goodbyes)
+    acts = []
+    t_reg = 0
+    if registered_before:
+        acts.append({"t": 0, "op": "register", "i": 1, "allow": False})
+        t_reg = rng.choice([900, 1300, 2000])
+    acts.append({"t": t_reg, "op": "register", "i": 0, "allow": False})
+    if rng.random() < 0.4:
+        acts.append({"t": rng.choice([0, 50]), "op": "browse-untracked", "type": TB, "handlers": False})
+    deadline = t_reg + 175 * k
+    return {"seed": seed, "idx": idx, "acts": sorted(acts, key=lambda a_: a_["t"]), "horizon": deadline + 600, "maxdelay": 0,
+            "peer_period": 410, "peer_tc": False, "close_pick": 0.0, "close_jitter": 0,
+            "close_at": deadline - 1 - (250 if registered_before else 0) + rng.choice([0, 0, 0, -1, 1]),
+            "tie_first": "notify", "late_action": None, "late_at": 0, "second_close_after": rng.choice([5, 100]), "tail": 20000,
+            "listen_socket": rng.random() < 0.6, "addr_mode": "same", "server_mode": "distinct", "extra_closes": [], "cancel_first_at": None}
+
+
 def gen_early_case(seed, idx):
     """closes requested while the engine is still starting (endpoints not created yet)"""
     rng = C.rng_for(seed, "c17-early", idx)
@@ -584,7 +630,7 @@ def simulate_early(case):
     vsim.VLoop.create_datagram_endpoint = slow_cde
 
     async def main(sim):
-        sim.loop.set_exception_handler(lambda l, ctx: obs["errors"].append([sim.now(), str(ctx.get("exception") or ctx.get("message"))[:200]]))
+        sim.loop.set_exception_handler(lambda l, ctx: obs["errors"].append([sim.now(), describe_loop_error(ctx)]))
         a = sim.make_host("A", "10.0.0.1", listen_socket=bool(case.get("listen_socket")))
         za = a.zc
         aza = AsyncZeroconf(zc=za)
@@ -992,6 +1038,10 @@ def run(ctx):
             continue
         if idx % 8 == 5:
             run_early_case(res, gen_early_case(ctx["seed"], idx), ctx, acc)
+            continue
+        if idx % 8 == 7:
+            run_case(res, gen_waiter_case(ctx["seed"], idx), ctx, acc)
+            res.count("notification-meets-wait-deadline")
             continue
         case = gen_case(ctx["seed"], idx)
         run_case(res, case, ctx, acc)
